@@ -143,6 +143,20 @@ func genResolveCase(r *rand.Rand) *pcase {
 		pc.deps = append(pc.deps, metaDep(r, t, c))
 		pc.depSrc = append(pc.depSrc, t)
 	}
+	// the package metadata may list the same package more than once, with different constraints
+	// (every entry counts)
+	if len(pc.deps) > 0 && r.IntN(100) < 20 {
+		k := r.IntN(len(pc.deps))
+		t := pc.depSrc[k]
+		cons := consFor(t)
+		if v, ok := ver[t]; ok && validTag(v) && r.IntN(2) == 0 {
+			cons = []string{"<" + v, ">" + v, "!=" + v}[r.IntN(3)] // not satisfied by what is installed
+		}
+		at := r.IntN(len(pc.deps) + 1)
+		d := metaDep(r, t, cons)
+		pc.deps = append(pc.deps[:at:at], append([]pkgmetav1.Dependency{d}, pc.deps[at:]...)...)
+		pc.depSrc = append(pc.depSrc[:at:at], append([]string{t}, pc.depSrc[at:]...)...)
+	}
 	pc.selfInLock = r.IntN(100) < 45
 	if pc.selfInLock { // the entry the revision wrote on an earlier reconcile: same source, same dependencies
 		lp := v1beta1.LockPackage{
